@@ -142,9 +142,14 @@ def check_sim(pid, tier, seed, replay):
         ok2 = False
         for h in hists:
             t2 = list(h)
+            delivered_ok = set()
+            for ln in t2:
+                e = json.loads(ln)
+                if e["ev"] == "SimBlock":
+                    delivered_ok |= {x["id"] for x in e["delivered"] if x["code"] == 0}
             for i, ln in enumerate(t2):
                 e = json.loads(ln)
-                if e["ev"] == "SimPredict" and e["what"] == "call":
+                if e["ev"] == "SimPredict" and e["what"] == "call" and e["id"] in delivered_ok:
                     e["result"]["gasUsed"] += 1
                     t2[i] = json.dumps(e)
                     ok2 = True
